@@ -80,3 +80,55 @@ Theorem C17_upsert_uprase_functor_log_and_effect :
   exists e : entry, bget (cur t') b s = Some e /\ ekey e = k /\ eval e = vf))).
 Proof. exact uprase_gen_good. Qed.
 Print Assumptions C17_upsert_uprase_functor_log_and_effect.
+
+(* ---- functor invocation through deferred migration (LazyRefine.v) ---- *)
+From LC Require Import LazyRefine.
+Theorem C17_lookup_functor_through_deferred_migration :
+  forall (c : config) (hash : N -> N),
+  cfg_ok c ->
+  forall (t : table) (k : N) (g : Z -> Z * bool),
+  lgood c hash t ->
+  forall (t' : table) (r : option Z),
+  lookup_fn c hash false t k g = (t', r) ->
+  lgood c hash t' /\
+  lim_same t t' /\
+  bhp (cur t') = bhp (cur t) /\
+  ((forall v : Z, ~ lholds c t k v) /\ r = None /\ levolves c hash t t' \/
+  (exists v0 : Z,
+  lholds c t k v0 /\ r = Some v0 /\ lupd c t t' k (if snd (g v0) then None else Some (fst (g v0))))).
+Proof. exact lookup_fn_lgood. Qed.
+Print Assumptions C17_lookup_functor_through_deferred_migration.
+
+Theorem C17_upsert_functor_through_deferred_migration :
+  forall (c : config) (hash : N -> N),
+  cfg_ok c ->
+  forall (t : table) (k : N) (v : Z) (g : Z -> bool -> option (Z * bool)),
+  nothrow c = true ->
+  lgood c hash t ->
+  forall (t' : table) (r : exn + bool * list rv * (N * N)),
+  uprase_gen c hash false t k v g = (t', r) ->
+  (forall v0 : Z,
+  lholds c t k v0 ->
+  exists b s : N,
+  r = inr (false, log_of g v0 false, (b, s)) /\
+  lgood c hash t' /\
+  lim_same t t' /\
+  bhp (cur t') = bhp (cur t) /\
+  lupd c t t' k (final_of g v0 false) /\
+  (forall vf : Z,
+  final_of g v0 false = Some vf ->
+  exists e : entry, bget (cur t') b s = Some e /\ ekey e = k /\ eval e = vf)) /\
+  ((forall v0 : Z, ~ lholds c t k v0) ->
+  lesc c hash t \/
+  (exists e : exn, r = inl e /\ exn_ok c true t t' e /\ levolves c hash t t') \/
+  (exists b s : N,
+  r = inr (true, log_of g v true, (b, s)) /\
+  lgood c hash t' /\
+  lim_same t t' /\
+  bhp (cur t) <= bhp (cur t') /\
+  lupd c t t' k (final_of g v true) /\
+  (forall vf : Z,
+  final_of g v true = Some vf ->
+  exists e : entry, bget (cur t') b s = Some e /\ ekey e = k /\ eval e = vf))).
+Proof. exact uprase_gen_lgood. Qed.
+Print Assumptions C17_upsert_functor_through_deferred_migration.
